@@ -234,6 +234,10 @@ def pipeline_case(draw, modes=MODES, kinds=ALL_KINDS, max_refs=3, max_queries=6,
     queries = [draw(query_map(qid, refs, kinds)) for qid in qids]
     case = {"refs": refs, "queries": queries, "mode": draw(st.sampled_from(list(modes))),
             "args": draw(cli_args(options, weight_default))}
+    # the additional output files are named after the main one: vary its extension and spelling
+    of = draw(st.sampled_from(["out.xmap"] * 5 + ["out", "result.tsv", "run.v2.xmap", "OUT.XMAP", "out.xmap.txt"]))
+    if of != "out.xmap":
+        case["outfile"] = of
     if flank_repeat and draw(st.integers(0, 5)) < flank_repeat:
         add_flank_repeat(draw, case)
     return case
